@@ -12,15 +12,17 @@ import (
 // (a load depends on every store into the allocation or a part of it) and, when fieldMem is set,
 // field-based for struct fields of module types (a load of T.f depends on every store to T.f in the module).
 type slicer struct {
-	c        *Ctx
-	depth    int                      // inter-procedural depth (into callees' returns, out to callers' arguments)
-	fieldMem bool                     // follow stores to the same struct field across the module
-	stop     func(v ssa.Value) bool   // values at which the walk stops (they are still recorded)
-	noCallee func(f *ssa.Function) bool // callees that are not entered
-	seen     map[ssa.Value]bool
-	order    []ssa.Value
-	control  bool // also follow the conditions selecting phi operands
-	objFlow  bool // a call on an object (interface / pointer receiver) depends on what other calls fed into that object
+	c         *Ctx
+	depth     int                        // inter-procedural depth (into callees' returns, out to callers' arguments)
+	fieldMem  bool                       // follow stores to the same struct field across the module
+	stop      func(v ssa.Value) bool     // values at which the walk stops (they are still recorded)
+	noCallee  func(f *ssa.Function) bool // callees that are not entered
+	seen      map[ssa.Value]bool
+	order     []ssa.Value
+	control   bool // also follow the conditions selecting phi operands
+	objFlow   bool // a call on an object (interface / pointer receiver) depends on what other calls fed into that object
+	fieldStop bool // a field of a non-local struct is a root: its base pointer is not followed (provenance queries)
+	entered   map[*ssa.Function][]ssa.CallInstruction // call sites through which a callee was entered (parameters bind to those only)
 }
 
 func (c *Ctx) newSlicer() *slicer {
@@ -130,6 +132,14 @@ func (s *slicer) visit(v ssa.Value, depth int) {
 	case *ssa.Call:
 		s.call(x, depth)
 	case *ssa.Extract:
+		if call, ok := x.Tuple.(*ssa.Call); ok && !s.seen[call] {
+			s.seen[call] = true
+			s.order = append(s.order, call)
+			if s.stop == nil || !s.stop(call) {
+				s.callResult(call, depth, x.Index)
+			}
+			return
+		}
 		s.visit(x.Tuple, depth)
 	case *ssa.Lookup:
 		s.visit(x.X, depth)
@@ -141,6 +151,9 @@ func (s *slicer) visit(v ssa.Value, depth int) {
 		s.visit(x.X, depth)
 		s.visit(x.Index, depth)
 	case *ssa.FieldAddr:
+		if s.fieldStop && baseAlloc(x) == nil {
+			return
+		}
 		s.visit(x.X, depth)
 	case *ssa.Field:
 		s.visit(x.X, depth)
@@ -312,6 +325,14 @@ func (s *slicer) objectFeeds(obj ssa.Value, depth int) {
 	for a := range al {
 		for _, ref := range valueReferrers(a) {
 			if ci, ok := ref.(ssa.CallInstruction); ok {
+				if cv, isVal := ci.(*ssa.Call); isVal && !s.seen[cv] {
+					// the feeding call itself is part of the slice (recorded, its other arguments followed below)
+					s.seen[cv] = true
+					s.order = append(s.order, cv)
+				}
+				if ci.Common().IsInvoke() && !al[ci.Common().Value] {
+					s.visit(ci.Common().Value, depth)
+				}
 				for _, arg := range ci.Common().Args {
 					if !al[arg] {
 						s.visit(arg, depth)
@@ -322,7 +343,10 @@ func (s *slicer) objectFeeds(obj ssa.Value, depth int) {
 	}
 }
 
-func (s *slicer) call(x *ssa.Call, depth int) {
+func (s *slicer) call(x *ssa.Call, depth int) { s.callResult(x, depth, -1) }
+
+// callResult follows a call for its result number idx (-1: all results).
+func (s *slicer) callResult(x *ssa.Call, depth int, idx int) {
 	cc := x.Common()
 	if cc.IsInvoke() {
 		s.visit(cc.Value, depth)
@@ -337,6 +361,9 @@ func (s *slicer) call(x *ssa.Call, depth int) {
 		}
 	}
 	for _, a := range cc.Args {
+		if s.fieldStop && isModuleStructPtr(a.Type()) {
+			continue // the object's state is accounted for by the fields read in the callee
+		}
 		s.visit(a, depth)
 	}
 	if depth <= 0 {
@@ -349,8 +376,15 @@ func (s *slicer) call(x *ssa.Call, depth int) {
 		if s.noCallee != nil && s.noCallee(f) {
 			continue
 		}
+		if s.entered == nil {
+			s.entered = map[*ssa.Function][]ssa.CallInstruction{}
+		}
+		s.entered[f] = append(s.entered[f], x)
 		for _, r := range returnsOf(f) {
-			for _, rv := range r.Results {
+			for i, rv := range r.Results {
+				if idx >= 0 && i != idx {
+					continue
+				}
 				s.visit(rv, depth-1)
 			}
 		}
@@ -371,7 +405,12 @@ func (s *slicer) param(p *ssa.Parameter, depth int) {
 	if idx < 0 {
 		return
 	}
-	for _, site := range s.c.callersOf(fn) {
+	sites := s.c.callersOf(fn)
+	if es := s.entered[fn]; len(es) > 0 {
+		sites = es // entered through these call sites: bind the parameter in their context only
+		depth++ // coming back out of a callee does not consume depth
+	}
+	for _, site := range sites {
 		cc := site.Common()
 		args := cc.Args
 		if cc.IsInvoke() {
@@ -587,4 +626,20 @@ func constInt(v ssa.Value) (int64, bool) {
 		return 0, false
 	}
 	return c.Int64(), true
+}
+
+func isModuleStructPtr(t types.Type) bool {
+	p, ok := t.Underlying().(*types.Pointer)
+	if !ok {
+		return false
+	}
+	n, ok := p.Elem().(*types.Named)
+	if !ok || n.Obj().Pkg() == nil {
+		return false
+	}
+	if _, isStruct := n.Underlying().(*types.Struct); !isStruct {
+		return false
+	}
+	path := n.Obj().Pkg().Path()
+	return path == modPath || len(path) > len(modPath) && path[:len(modPath)+1] == modPath+"/"
 }
